@@ -69,6 +69,8 @@ pub fn walpha(name: &str) -> Vec<f64> {
         "w012" => vec![0.0, 1.0, 2.0],
         "wf" => vec![0.1, 0.2, 0.3],
         "wf2" => vec![0.1, 0.2],
+        // node-keyed schemes: an edge is present or absent, its weight is a function of its ends (see `scheme_weight`)
+        "ksrc" | "ksrc2" | "kdst" | "ksum" => vec![1.0],
         "w12inf" => vec![1.0, 2.0, f64::INFINITY],
         "wneg" => vec![-5.0, 1.0, 2.0],
         // weights whose sums overflow or are infinite (gains become NaN): only for reproducibility (C17)
@@ -372,7 +374,7 @@ pub fn parse_case(case: &str) -> Option<(Family, u64, u8, u8, String)> {
     if !(p.len() == 7 || (p.len() == 8 && (p[7].starts_with('P') || p[7].starts_with('H')))) || p[0] != "g" {
         return None;
     }
-    let wa: &'static str = ["u", "w1", "w12", "w123", "w01", "w012", "wf", "wneg", "wtiny", "whuge", "winf", "wmax", "wf2", "w12inf"].iter().find(|x| **x == p[3]).copied()?;
+    let wa: &'static str = ["u", "w1", "w12", "w123", "w01", "w012", "wf", "wneg", "wtiny", "whuge", "winf", "wmax", "wf2", "w12inf", "ksrc", "ksrc2", "kdst", "ksum"].iter().find(|x| **x == p[3]).copied()?;
     let f = Family { kind: Kind::from_idx(p[1].parse().ok()?), n: p[2].parse().ok()?, walpha: wa, orders: vec![], min_edges: 0, max_edges: usize::MAX, primed: p.len() == 8 && p[7].starts_with('P'), histories: p.len() == 8 && p[7].starts_with('H') };
     Some((f, p[4].parse().ok()?, p[5].parse().ok()?, p[6].parse().ok()?, extra))
 }
@@ -385,6 +387,18 @@ pub fn case_primer(case: &str) -> Option<usize> {
         p[7].strip_prefix('P').or(p[7].strip_prefix('H')).and_then(|x| x.parse().ok())
     } else {
         None
+    }
+}
+
+/// weight of the edge u -> v under a node-keyed scheme: every node's out-edges (ksrc, ksrc2) or in-edges (kdst)
+/// share one weight while different nodes use different weights; ksum mixes both ends
+pub fn scheme_weight(walpha: &str, u: usize, v: usize) -> Option<f64> {
+    match walpha {
+        "ksrc" => Some(1.0 + (u % 2) as f64),
+        "ksrc2" => Some(1.0 + ((u / 2) % 2) as f64 * 4.0),
+        "kdst" => Some(1.0 + (v % 2) as f64),
+        "ksum" => Some(1.0 + ((u + 2 * v) % 3) as f64),
+        _ => None,
     }
 }
 
@@ -403,7 +417,7 @@ pub fn build(f: &Family, idx: u64, no: u8, eo: u8) -> Built {
     let mut edges: Vec<(usize, usize, f64)> = vec![];
     for (k, &(u, v)) in slots.iter().enumerate() {
         for &w in &vals[d[k] as usize] {
-            edges.push((u, v, w));
+            edges.push((u, v, scheme_weight(f.walpha, u, v).unwrap_or(w)));
         }
     }
     if eo == 1 {
